@@ -1,6 +1,7 @@
 package vlib
 
 import (
+	"io"
 	"os"
 	"strings"
 
@@ -77,5 +78,67 @@ func Canon() (restore func()) {
 		slog.SetLevelOutputWidth(3)
 		slog.SetMessageMinimalWidth(36)
 		ResetPathTables()
+	}
+}
+
+// allFlagBits are the documented flag bits the harness toggles.
+var allFlagBits = []slog.Flags{slog.Ldate, slog.Ltime, slog.Lmicroseconds, slog.LlocalTime, slog.Lattrs, slog.LattrsR, slog.Llineno,
+	slog.Lcaller, slog.Lcallerpackagename, slog.Lprivacypath, slog.Lprivacypathregexp, slog.LsmartJSONMode, slog.LnoInterrupt, slog.Linterruptalways}
+
+// SetFlagsVia makes the package flags equal to want through one of the public ways (how mod 4):
+//
+//	0  SetFlags(want)
+//	1  ResetFlags, then AddFlags / RemoveFlags bit by bit
+//	2  SetFlags(other); SaveFlagsAndMod(...) so that want holds INSIDE the (still open) scope
+//	3  SetFlags(want); a SaveFlagsAndMod scope with other flags in which records are emitted; restore()
+//
+// "other" differs from want in the bits of mask. An implementation that caches anything derived from the
+// flags has to stay correct on every one of these paths. Canon() puts the flags back with SetFlags.
+func SetFlagsVia(how int, want, mask slog.Flags) {
+	other := want ^ mask
+	prime := func() {
+		for _, f := range []string{"color", "logfmt", "json"} {
+			l := slog.New("flagscope")
+			switch f {
+			case "json":
+				l.SetJSONMode(true)
+			case "logfmt":
+				l.SetColorMode(false)
+			}
+			l.SetWriter(io.Discard)
+			l.SetErrorWriter(io.Discard)
+			l.SetLevel(slog.AlwaysLevel)
+			l.Info("inside another flag scope", "k", 1)
+		}
+	}
+	switch how % 4 {
+	case 1:
+		slog.ResetFlags()
+		for _, f := range allFlagBits {
+			if want&f != 0 {
+				slog.AddFlags(f)
+			} else {
+				slog.RemoveFlags(f)
+			}
+		}
+	case 2:
+		slog.SetFlags(other)
+		prime()
+		_ = slog.SaveFlagsAndMod(want&^other, other&^want)
+	case 3:
+		slog.SetFlags(want)
+		restore := slog.SaveFlagsAndMod(other&^want, want&^other)
+		prime()
+		restore()
+	default:
+		slog.SetFlags(want)
+	}
+	if got := slog.GetFlags(); got != want {
+		// bits outside allFlagBits can only differ on path 1
+		for _, f := range allFlagBits {
+			if got&f != want&f {
+				panic("vlib.SetFlagsVia: flags not as wanted")
+			}
+		}
 	}
 }
